@@ -160,6 +160,33 @@ def run_tlc(ctx, module, cfg, workers=4, timeout=600, env=None, extra=None, xmx=
     return res
 
 
+def apalache_inductive(ctx, module, init, indinit, inv, wrong=None, timeout=900):
+    """Unbounded safety of a small integer spec: Apalache discharges `init => inv` (length 0) and `indinit /\\ Next => inv'`
+    (length 1); `wrong` is a predicate that must NOT be inductive (vacuity witness). A failure here is a tool error."""
+    def run(i, v, length):
+        out = ctx.path("apalache_%s_%s_%d" % (i, v, length))
+        p = subprocess.run(["timeout", str(timeout), "apalache-mc", "check", "--init=" + i, "--inv=" + v, "--length=%d" % length,
+                            "--out-dir=" + out, os.path.join(SPEC, module)], cwd=SPEC, stdout=subprocess.PIPE, stderr=subprocess.STDOUT, text=True)
+        shutil.rmtree(out, ignore_errors=True)
+        ok = "The outcome is: NoError" in p.stdout
+        err = "The outcome is: Error" in p.stdout
+        if not ok and not err:
+            sys.stdout.write(p.stdout[-2000:])
+            raise ToolError("apalache did not decide %s / %s" % (i, v))
+        return ok
+    t0 = time.time()
+    base = run(init, inv, 0)
+    step = run(indinit, inv, 1)
+    if not (base and step):
+        raise ToolError("apalache: %s is not an inductive invariant of %s (base=%s step=%s)" % (inv, module, base, step))
+    if wrong and run(indinit, wrong, 1):
+        raise ToolError("apalache vacuity witness %s was accepted as inductive" % wrong)
+    ctx.cov["tlc_runs"].append({"cfg": module, "role": "Apalache: %s is an inductive invariant (base from %s, step from %s); unbounded in every "
+                                "integer%s" % (inv, init, indinit, "; vacuity witness %s rejected" % wrong if wrong else ""),
+                                "wall_s": round(time.time() - t0, 2)})
+    log("  apalache: %s inductive for %s (unbounded)" % (inv, module))
+
+
 def tlc_l1(ctx, module, cfg, expect_violation=None, workers=4, timeout=900, **kw):
     """Leg L1: the spec itself. expect_violation=None: must pass; else the named invariant must be violated
     (reachability witness / design-level confirmation). A failure here is a tool error, never a VIOLATION."""
